@@ -8,7 +8,7 @@ import tempfile
 ID = 'C09'
 LEVEL = 'exploration'
 QUICK_S = 45
-THOROUGH_S = 600
+THOROUGH_S = 300
 EXHAUSTIVE_CLAIM = True
 TECHNIQUE = ('runtime monitoring: dependency-driven scope provider wrapper (answers Postponed until the references it waits for '
              'are resolved), call counter enforcing a bounded-progress limit, least-fixpoint reference model, error-message checker')
@@ -347,7 +347,7 @@ def run(ctx):
             run_exh(ctx, 4, idx, s4[idx], False)
     ctx.note('exhaustive_n3_structures', len(s3))
     ctx.deadline = ctx.t0 + total
-    for i in ctx.indices(6000 if ctx.tier == 'quick' else 80000, 'random'):
+    for i in ctx.indices(6000 if ctx.tier == 'quick' else 10 ** 7, 'random'):
         run_rand(ctx, i)
 
 
